@@ -40,7 +40,7 @@ def run_C04(ctx):
         # the same stimuli through the handler implementing the interior-mutability trait directly
         cases = cases + [dict(c, adapter="direct") for c in cases[::3]]
     cases = replay_or(ctx, "server", cases)
-    tr = ctx.harness("server", cases)
+    tr = ctx.harness("server", cases, crash_is_data=True)
     viol = ctx.tlc_tv("TV_BackendServer", tr, "server")
     ctx.count_distinct(tr, lambda e: (e["c"], e["nr"], e["h"], e["ncalls"], e["nout"], e["res"]),
                        lambda e: e["ncalls"] > 0 or e["nout"] > 0 or e["res"] != "ok")
@@ -69,7 +69,7 @@ def group_session_cases(cases, tier):
     for c in cases:
         steps = c["steps"]
         prefix, last = steps[:-1], steps[-1]
-        slow = c["predicted"] == "hang" or (c["called"] and last["op"] == "get_config" and (last["h"] == "fail" or last["shape"] == "wronglen"))
+        slow = c["predicted"] == "hang"
         if slow:
             nr = any(s.get("op") == "set_hdr_flags" and s.get("nr") for s in prefix)
             k = (last["op"], last["cls"], last["h"], last["shape"], nr)
@@ -83,6 +83,14 @@ def group_session_cases(cases, tier):
             key = json.dumps([c["dev"], prefix], sort_keys=True)
             by_prefix.setdefault(key, dict(dev=c["dev"], steps=list(prefix)))["steps"].append(last)
     out.extend(by_prefix.values())
+    # every session that is not expected to end in a hang closes with a call whose handler succeeds: an error path that
+    # leaves bytes of its reply unread (or reads too many) shows up as a wrong answer to this call
+    probe = next((dict(c["steps"][-1]) for c in cases if c["steps"][-1]["op"] == "get_features" and c["steps"][-1]["h"] == "ok"
+                  and c["predicted"] == "ok"), None)
+    if probe is not None:
+        for s_ in out:
+            if not s_.get("slow"):
+                s_["steps"] = list(s_["steps"]) + [dict(probe)]
     return out
 
 
@@ -179,7 +187,7 @@ def server_run(ctx):
     cfg = "MC_BackendServer_" + ctx.tier
     cases = group_server_cases(ctx.tlc_mc("MC_BackendServer", cfg))
     cases = replay_or(ctx, "server", cases)
-    tr = ctx.harness("server", cases, shards=4)
+    tr = ctx.harness("server", cases, shards=4, crash_is_data=True)
     viol = ctx.tlc_tv("TV_BackendServer", tr, "server")
     ctx.count_distinct(tr, lambda e: ("srv", e["c"], e["nr"], e["h"], e["ncalls"], e["nout"], e["res"]),
                        lambda e: e["ncalls"] > 0 or e["nout"] > 0 or e["res"] != "ok")
@@ -304,11 +312,46 @@ def sender_run(ctx):
     return viol
 
 
+def reply_framing_run(ctx):
+    """C08, frontend as receiver: the correct reply / acknowledgement of every awaiting call, delivered in separate segments
+    (must give the same result) or cut off by end-of-stream at every offset (must give an error, not a success or a hang)."""
+    cases = ctx.tlc_mc("MC_Client", "MC_Client_" + ctx.tier)
+    best = {}
+    for c in cases:
+        last = c["steps"][-1]
+        if last.get("peer") != "auto" or c["act"] != "send" or c["await"] not in ("reply", "ack") or last["op"] in STATE_CHANGING_OPS:
+            continue
+        k = (last["op"], last["cls"], c["await"])
+        if k not in best or len(c["steps"]) < len(best[k]["steps"]):
+            best[k] = c
+    sess = []
+    offs = list(range(0, 40 if ctx.tier == "quick" else 120)) + [-1, -2]
+    for k, c in sorted(best.items()):
+        pre, last = c["steps"][:-1], c["steps"][-1]
+        for at in offs:
+            sess.append(dict(steps=pre + [dict(last, peer="cut", at=at)]))
+        splits = [[a] for a in offs if a != 0] + [[1, 12], [12, 13], [11, 13], [12, -2], [4, 8], [13, -1]]
+        # segmented replies leave the session usable: several per session
+        for i in range(0, len(splits), 8):
+            sess.append(dict(steps=pre + [dict(last, peer="seg", segs=sp) for sp in splits[i:i + 8]]))
+        # byte by byte
+        sess.append(dict(steps=pre + [dict(last, peer="seg", segs=list(range(1, 64)))]))
+    sess = replay_or(ctx, "client", sess)
+    tr = ctx.harness("client", sess, shards=12)
+    viol = ctx.tlc_tv("TV_Client", tr, "client")
+    ctx.count_distinct(tr, lambda e: (e.get("op"), e.get("peer"), e.get("at"), json.dumps(e.get("segs")), e.get("res")),
+                       lambda e: e.get("ev") == "call" and e.get("peer") in ("cut", "seg"))
+    return viol
+
+
 def run_C08(ctx):
+    if ctx.replay is not None and ctx.replay["engine"] == "client":
+        viol = reply_framing_run(ctx)
+        return ctx.finish("fault_enumeration", "replay of reply segmentation / truncation towards the frontend", ASSUME_COMMON, viol)
     if ctx.replay is not None and ctx.replay["engine"] == "sender":
         viol = sender_run(ctx)
         return ctx.finish("fault_enumeration", "replay of sender-side partial-write scripts", ASSUME_COMMON, viol)
-    sviol = sender_run(ctx) if ctx.replay is None else []
+    sviol = (sender_run(ctx) + reply_framing_run(ctx)) if ctx.replay is None else []
     stim = channel_cases(ctx)
     cases = []
     for st in stim:
@@ -330,7 +373,7 @@ def run_C08(ctx):
     if ctx.replay is not None and ctx.replay["engine"] != "server":
         cases = []
     cases = replay_or(ctx, "server", cases) if ctx.replay is None or ctx.replay["engine"] == "server" else []
-    tr = ctx.harness("server", cases, shards=12)
+    tr = ctx.harness("server", cases, shards=12, crash_is_data=True)
     viol += ctx.tlc_tv("TV_BackendServer", tr, "server")
     ctx.count_distinct(tr, lambda e: (e["c"], tuple(e["seg"]), e["cut"]), lambda e: e.get("seg") or e.get("cut", -1) >= 0)
     ctx.sample(tr, 3, skip=3)
@@ -339,7 +382,9 @@ def run_C08(ctx):
         "Receivers: Channel.tla is model-checked per message length (all segmentations / cut points of the state graph); stimuli = for every served "
         "request type (deterministic body): every 2-split, 3-splits (all for messages <= 52 bytes, else on a 4-byte grid; all in thorough), "
         "byte-by-byte delivery, and every cut offset 0..len-1 followed by EOF; each segment is really delivered separately (the peer waits "
-        "until the receiver drained the previous one). Senders: Sender.tla (send loop over a socket that accepts any part of a write or "
+        "until the receiver drained the previous one). Frontend as receiver: the correct reply / acknowledgement of every awaiting call "
+        "(one negotiation state per (operation, class)) cut by end-of-stream at every offset 0..39 (119 thorough), the middle and the last byte "
+        "(error, no success, no hang) and delivered in 2 and 3 segments at those offsets and byte by byte (same result). Senders: Sender.tla (send loop over a socket that accepts any part of a write or "
         "refuses it) is model-checked per message; for every message the four endpoint kinds send (frontend requests, request-server replies "
         "and acks, backend-initiated requests, GPU requests incl. 50 kB payloads) every script of parts given by 0..2 (3 thorough) cut points "
         "among {1, iovec boundaries -1/0/+1, len-1}, with a refused attempt (EAGAIN / EINTR) before any part or twice before the first, and "
@@ -362,7 +407,29 @@ def bereq_run(ctx, hostile=False, functional=True):
     sess = []
     if functional:
         full = [c for c in cases if len(c["steps"]) == depth - 0]
+        # histories whose last request is really acknowledged (feature enabled, reply-ack on both ends) carry the core of C18:
+        # all of them are kept, and the value-bearing ones are repeated for every class of handler value / errno
+        def acked_request(steps):
+            fl = dict(ra=False, so=False, sh=False, hra=False)
+            for s_ in steps[:-1]:
+                if s_["t"] == "flag":
+                    fl[s_["f"]] = s_["b"]
+            last = steps[-1]
+            return last["t"] == "req" and fl["ra"] and fl["hra"] and (fl["so"] if last["k"] in (6, 7, 8) else fl["sh"])
+        core = [c for c in full if acked_request(c["steps"])]
         full = full[::(max(1, len(full) // (6000 if ctx.tier == "quick" else 100000)))]
+        extra = []
+        for c in core:
+            last = c["steps"][-1]
+            if last["r"] == "nonzero":
+                for v in (1, 2, 0xff, 1 << 32, (1 << 64) - 1, 1 << 63, 0xdeadbeef00000000, 1 << 31):
+                    extra.append(dict(steps=c["steps"][:-1] + [dict(last, val=limbs(v))]))
+            elif last["r"] == "errno":
+                for e_ in (1, 2, 5, 12, 22, 38, 95, 4095):
+                    extra.append(dict(steps=c["steps"][:-1] + [dict(last, errno=e_)]))
+            else:
+                extra.append(c)
+        full = full + extra
         for i, c in enumerate(full):
             steps = c["steps"]
             sess.append(dict(mode="pair", adapter="mutex" if i % 3 else "direct", steps=steps))
@@ -500,7 +567,7 @@ def hostile_server_run(ctx, fdpos=False):
         for c in cases:
             allc.append(dict(dev=c["dev"], steps=c["steps"], adapter="direct" if r % 3 == 2 else "mutex"))
     allc = replay_or(ctx, "server", allc)
-    tr = ctx.harness("server", allc, shards=12)
+    tr = ctx.harness("server", allc, shards=12, crash_is_data=True)
     viol = ctx.tlc_tv("TV_BackendServer", tr, "server")
     ctx.count_distinct(tr, lambda e: (e["c"], e["var"], e["nfds"], e["res"], e["ncalls"]), lambda e: e["var"] != "valid")
     ctx.sample(tr, 3, skip=7)
@@ -570,7 +637,7 @@ def hostile_letter(a, pool, rnd):
         off = {"zero": 0, "in": 0x100, "end-1": 0xfff, "end": 0x1000, "max32": 0xffffffff}[f["off"]]
         win = 0x1000 - off if off < 0x1000 else 0x1000
         size = {"zero": 0, "one": 1, "window": win, "window+1": win + 1, "max32": 0xffffffff}[f["size"]]
-        d.update(c=24 if k == "get_config" else 25, body=(struct.pack("<III", off, size, 0) + bytes(min(size, 0x1001))).hex(), has_reply=(k == "get_config"))
+        d.update(c=24 if k == "get_config" else 25, body=(struct.pack("<III", off, size, 0) + bytes(size if size <= 0x1001 else 8)).hex(), has_reply=(k == "get_config"))
     elif k in ("get_inflight_fd", "set_inflight_fd"):
         s3 = {"zero": 0, "page": 0x1000, "max": M64}
         d.update(c=31 if k == "get_inflight_fd" else 32, body=struct.pack("<QQHHI", s3[f["size"]], s3[f["off"]], U16V[f["nq"]], U16V[f["qs"]], 0).hex(),
@@ -896,7 +963,12 @@ def mem_reconnect_tail(pool, G, rids):
     daemon and check the translation of every region in turn (a refused translation ends the connection again)."""
     tail = []
     for r in rids:
+        size = (POOL_HI[r] - POOL_LO[r]) * 0x1000
         tail += [dict(op="reconnect"), MEM_NEG, mem_probes(pool, G, r)[-1]]
+        # the first user address past the region is contained in no region (the pool's user ranges are far apart),
+        # the last descriptor-sized slot inside it is
+        tail += [dict(op="reconnect"), MEM_NEG, dict(op="set_vring_addr", q=0, rid=r, odesc=limbs(size), oavail=limbs(0x102), oused=limbs(0x204), edge="end")]
+        tail += [dict(op="reconnect"), MEM_NEG, dict(op="set_vring_addr", q=0, rid=r, odesc=limbs(size - 16), oavail=limbs(size - 2), oused=limbs(size - 4), edge="last")]
     return tail
 
 
